@@ -37,7 +37,9 @@ Seps == <<
   (* 7 *) S("/* c , ; } */", FALSE, "/* c , ; } */", "/* c , ; } */"),
   (* 8 *) S(" /* /* n */ \" ' */ ", FALSE, "/* /* n */ \" ' */ ", " /* /* n */ \" ' */"),
   (* 9 *) S("/**/", FALSE, "/**/", "/**/"),
-  (* 10 *) S("\n/*/**/*/\n", FALSE, "/*/**/*/\n", "\n/*/**/*/")
+  (* 10 *) S("\n/*/**/*/\n", FALSE, "/*/**/*/\n", "\n/*/**/*/"),
+  (* 11: `/*/` inside a block comment opens a nested comment and does not close it *)
+           S(" /* /*/ */ */ ", FALSE, "/* /*/ */ */ ", " /* /*/ */ */")
 >>
 NSeps == Len(Seps)
 Plain == 2      \* the separator of the base rendering
